@@ -162,8 +162,8 @@ func BuildAll(probeName string, cfgs []ProbeConfig) []Built {
 			files["gqlgen.yml"] = pc.yaml(probeName)
 			files["harness/main.go"] = string(tmpl)
 			if pc.FieldDirective {
-				files["schema.graphql"] = "directive @fq(tag: String) on FIELD\n" + files["schema.graphql"]
-				files["harness/main.go"] = strings.Replace(files["harness/main.go"], "// FIELD-DIRECTIVE-HOOK", "Fq: func(ctx context.Context, obj any, next graphql.Resolver, tag *string) (any, error) { return cur().QueryDirective(ctx, next) },", 1)
+				files["schema.graphql"] = "directive @fq(tag: String) on FIELD\ndirective @oq(tag: String) on QUERY\ndirective @om(tag: String) on MUTATION\n" + files["schema.graphql"]
+				files["harness/main.go"] = strings.Replace(files["harness/main.go"], "// FIELD-DIRECTIVE-HOOK", "Fq: func(ctx context.Context, obj any, next graphql.Resolver, tag *string) (any, error) { return cur().QueryDirective(ctx, next) },\n\t\t\t\t\tOq: func(ctx context.Context, obj any, next graphql.Resolver, tag *string) (any, error) { return cur().OpDirective(ctx, next) },\n\t\t\t\t\tOm: func(ctx context.Context, obj any, next graphql.Resolver, tag *string) (any, error) { return cur().OpDirective(ctx, next) },", 1)
 			}
 			if pc.RenameRoots {
 				sdl := files["schema.graphql"]
